@@ -964,18 +964,43 @@ Fixpoint prop_batch_tail (ST : nat -> stmt) (b : bargs) (F : batch_frame) (xs : 
 (* Known finding F17, class stale-cached-metadata-without-ext                              *)
 (* ------------------------------------------------------------------------------------ *)
 
-(* the envelope of the class, on one call: no extension on the connection and cached result
-   metadata requested.  C14_faithful is proved for every call outside it. *)
-Definition known_classb (ext uc : bool) : bool := negb ext && uc.
-Definition KnownClass (ext uc : bool) : Prop := ext = false /\ uc = true.
+(* the quadrant in which C14_faithful ("decoded with the node's columns") cannot hold in general:
+   without the extension the server has no way to tell the client that its cached metadata is old *)
+Definition quadrantb (ext uc : bool) : bool := negb ext && uc.
+Definition Quadrant (ext uc : bool) : Prop := ext = false /\ uc = true.
 
-(* The property's own bookkeeping along a recorded history: per statement the columns the
-   server most recently ANNOUNCED — at (re-)preparation (a PREPARED for the statement's text
-   with the statement's id that carries columns) or together with a new metadata id (Rows with
-   METADATA_CHANGED) — and whether that announcement was a re-preparation. *)
-Record ann_state := mkAnn { an_latest : nat -> list col; an_reprep : nat -> bool }.
+(* The class of the finding, on a state of the system and a call c that decoded rows with [cols]:
+   c is in the quadrant and some call received a PREPARED for c's statement (same id: a
+   re-preparation) that announced columns, and other ones than those c decoded with. *)
+Definition KnownClass (ST : nat -> stmt) (st : gstate) (c : nat) (cols : list col) : Prop :=
+  exists a, k_x (g_calls st c) = Some a /\ k_ext (g_calls st c) = false /\ xa_use_cached a = true /\
+    exists c' id pm, In (RPrepared id pm) (k_rcvd (g_calls st c')) /\ id = s_id (ST (xa_stmt a)) /\
+                     m_cols pm <> [] /\ m_cols pm <> cols.
 
 Definition is_nil {A} (l : list A) : bool := match l with [] => true | _ => false end.
+
+(* the same, computed over the calls 0 .. n-1 *)
+Definition reprep_differs (sid : bytes) (cols : list col) (r : resp) : bool :=
+  match r with
+  | RPrepared id pm => bytes_eqb id sid && negb (is_nil (m_cols pm)) && negb (list_eqb col_eqb (m_cols pm) cols)
+  | _ => false
+  end.
+Fixpoint any_call (n : nat) (f : nat -> bool) : bool :=
+  match n with O => false | Datatypes.S k => f k || any_call k f end.
+Definition known_classb (ST : nat -> stmt) (st : gstate) (n : nat) (c : nat) (cols : list col) : bool :=
+  match k_x (g_calls st c) with
+  | Some a =>
+      quadrantb (k_ext (g_calls st c)) (xa_use_cached a) &&
+      any_call n (fun c' => existsb (reprep_differs (s_id (ST (xa_stmt a))) cols) (k_rcvd (g_calls st c')))
+  | None => false
+  end.
+
+(* The property's own bookkeeping along a recorded (sequential) history: per statement the metadata
+   the server most recently ANNOUNCED with columns — at (re-)preparation (a PREPARED for the
+   statement's text with the statement's id) or together with a new metadata id (Rows with
+   METADATA_CHANGED) —, and whether that announcement was a re-preparation. *)
+Record ann_state := mkAnn {
+  an_latest : nat -> list col; an_id : nat -> option bytes; an_reprep : nat -> bool }.
 
 Definition ann_xchg (ST : nat -> stmt) (ns : nat) (an : ann_state) (x : xchg) : ann_state :=
   match x_req x, x_resp x with
@@ -983,13 +1008,14 @@ Definition ann_xchg (ST : nat -> stmt) (ns : nat) (an : ann_state) (x : xchg) : 
       match stmt_of_text ST ns t with
       | Some s =>
           if bytes_eqb id (s_id (ST s)) && negb (is_nil (m_cols m))
-          then mkAnn (upd (an_latest an) s (m_cols m)) (upd (an_reprep an) s true)
+          then mkAnn (upd (an_latest an) s (m_cols m)) (upd (an_id an) s (m_id m)) (upd (an_reprep an) s true)
           else an
       | None => an
       end
   | Q_execute f, RRows b =>
       match rb_meta b, stmt_of_id ST ns (f_id f) with
-      | RM_full (Some _) cols, Some s => mkAnn (upd (an_latest an) s cols) (upd (an_reprep an) s false)
+      | RM_full (Some i) cols, Some s =>
+          mkAnn (upd (an_latest an) s cols) (upd (an_id an) s (Some i)) (upd (an_reprep an) s false)
       | _, _ => an
       end
   | _, _ => an
@@ -997,7 +1023,7 @@ Definition ann_xchg (ST : nat -> stmt) (ns : nat) (an : ann_state) (x : xchg) : 
 
 (* One executed statement of the history: did the caller decode rows that came WITHOUT metadata
    (as requested) with other columns than the most recently announced ones?  [Some in_class]:
-   yes; in_class = the call is in the envelope and the latest announcement was a re-preparation. *)
+   yes; in_class = the call is in the quadrant and the latest announcement was a re-preparation. *)
 Definition stale_op (ST : nat -> stmt) (ns : nat) (an : ann_state) (ext : bool) (a : xargs)
   (xs : list xchg) (out : obs_out) : option bool :=
   match last (map Some xs) None, out with
@@ -1007,7 +1033,7 @@ Definition stale_op (ST : nat -> stmt) (ns : nat) (an : ann_state) (ext : bool) 
           match rb_meta b with
           | RM_none _ =>
               if f_skip f && negb (list_eqb col_eqb cols (an_latest an (xa_stmt a)))
-              then Some (known_classb ext (xa_use_cached a) && an_reprep an (xa_stmt a))
+              then Some (quadrantb ext (xa_use_cached a) && an_reprep an (xa_stmt a))
               else None
           | RM_full _ _ => None
           end
@@ -1016,17 +1042,103 @@ Definition stale_op (ST : nat -> stmt) (ns : nat) (an : ann_state) (ext : bool) 
   | _, _ => None
   end.
 
-(* all offending operations of a history: (index, in_class) *)
-Fixpoint stale_check (ST : nat -> stmt) (ns : nat) (an : ann_state) (i : nat) (tr : list top)
-  : list (nat * bool) :=
+(* "… which is also what the next execution presents": what an EXECUTE has to present given the
+   bookkeeping — with the extension the id of the most recently announced metadata (the empty id
+   while nothing with columns was announced) and skip_metadata iff there are columns to decode
+   with; without it no id, and skip_metadata iff cached metadata is asked for and there are columns *)
+Definition present_ok (an : ann_state) (ext : bool) (a : xargs) (f : exec_frame) : bool :=
+  let s := xa_stmt a in
+  let has := negb (is_nil (an_latest an s)) in
+  if ext then
+    obytes_eqb (f_rmid f) (Some (if has then match an_id an s with Some i => i | None => [] end else [])) &&
+    Bool.eqb (f_skip f) has
+  else
+    obytes_eqb (f_rmid f) None && Bool.eqb (f_skip f) (xa_use_cached a && has).
+
+(* every EXECUTE of one op, checked against the bookkeeping as it is when the frame is sent *)
+Fixpoint present_op (ST : nat -> stmt) (ns : nat) (an : ann_state) (ext : bool) (a : xargs) (xs : list xchg) : bool :=
+  match xs with
+  | [] => true
+  | x :: r =>
+      match x_req x with
+      | Q_execute f => present_ok an ext a f
+      | _ => true
+      end && present_op ST ns (ann_xchg ST ns an x) ext a r
+  end.
+
+(* all offending operations of a history: (index, Some in_class) = decoded with other columns than
+   announced; (index, None) = an EXECUTE presented another metadata id / skip flag than announced.
+   The second check only makes sense against well-behaved single-version announcements, i.e. it is
+   run when [check_present] (no extension: the cell never changes; extension: sequential history
+   whose nodes answer as specified). *)
+Fixpoint stale_check (ST : nat -> stmt) (ns : nat) (check_present : bool) (an : ann_state) (i : nat) (tr : list top)
+  : list (nat * option bool) :=
   match tr with
   | [] => []
   | TO_exec _ ext a xs out :: r =>
       let an' := fold_left (ann_xchg ST ns) xs an in
-      match stale_op ST ns an' ext a xs out with
-      | Some cl => (i, cl) :: stale_check ST ns an' (Datatypes.S i) r
-      | None => stale_check ST ns an' (Datatypes.S i) r
+      let rest := stale_check ST ns check_present an' (Datatypes.S i) r in
+      let rest := match stale_op ST ns an' ext a xs out with
+                  | Some cl => (i, Some cl) :: rest
+                  | None => rest
+                  end in
+      if check_present && negb (present_op ST ns an ext a xs) then (i, None) :: rest else rest
+  | TO_batch _ _ _ xs _ :: r =>
+      stale_check ST ns check_present (fold_left (ann_xchg ST ns) xs an) (Datatypes.S i) r
+  | TO_event _ _ :: r => stale_check ST ns check_present an (Datatypes.S i) r
+  end.
+
+(* ------------------------------------------------------------------------------------ *)
+(* concurrent callers in the tie: search for an interleaving of the client-side steps of   *)
+(* several calls (each with its recorded exchanges) that the generic system can perform    *)
+(* ------------------------------------------------------------------------------------ *)
+Record pcall := mkP {
+  pc_id : nat; pc_ext : bool; pc_args : xargs; pc_started : bool; pc_xs : list xchg; pc_out : obs_out }.
+
+(* one client-side step of a pending call: [Some (st', None)] = it is finished and matches *)
+Definition pstep (ST : nat -> stmt) (st : gstate) (p : pcall) : option (gstate * option pcall) :=
+  if negb (pc_started p) then
+    match gstep ST st (GL_exec (pc_id p) (pc_ext p) (pc_args p)) with
+    | Some st' => Some (st', Some (mkP (pc_id p) (pc_ext p) (pc_args p) true (pc_xs p) (pc_out p)))
+    | None => None
+    end
+  else
+    match pc_xs p with
+    | [] =>
+        match k_st (g_calls st (pc_id p)) with
+        | CS_done o => if obs_out_eqb (obs_of_outcome o) (pc_out p) then Some (st, None) else None
+        | _ => None
+        end
+    | x :: r =>
+        if negb (waiting (k_st (g_calls st (pc_id p)))) then None else
+        match last_sent st (pc_id p) with
+        | Some q =>
+            if request_eqb q (x_req x) then
+              match gstep ST st (GL_resp (pc_id p) (x_resp x)) with
+              | Some st' => Some (g_tick_if_needed ST st' (pc_id p),
+                                  Some (mkP (pc_id p) (pc_ext p) (pc_args p) true r (pc_out p)))
+              | None => None
+              end
+            else None
+        | None => None
+        end
+    end.
+
+(* depth-first search; [pre] = pending calls already tried (in vain) in this state *)
+Fixpoint g_par (fuel : nat) (ST : nat -> stmt) (st : gstate) (pre post : list pcall) : option gstate :=
+  match fuel with
+  | O => None
+  | Datatypes.S k =>
+      match post with
+      | [] => match pre with [] => Some st | _ => None end
+      | p :: rest =>
+          match pstep ST st p with
+          | Some (st', op') =>
+              match g_par k ST st' [] (pre ++ (match op' with Some p' => [p'] | None => [] end) ++ rest) with
+              | Some r => Some r
+              | None => g_par k ST st (pre ++ [p]) rest
+              end
+          | None => g_par k ST st (pre ++ [p]) rest
+          end
       end
-  | TO_batch _ _ _ xs _ :: r => stale_check ST ns (fold_left (ann_xchg ST ns) xs an) (Datatypes.S i) r
-  | TO_event _ _ :: r => stale_check ST ns an (Datatypes.S i) r
   end.
